@@ -24,6 +24,8 @@ def claimed_props():
 DEV = [p.strip().upper() for p in os.environ.get("VERIF_DEV", "").split(",") if p.strip()]
 ACTIVE = DEV if DEV else claimed_props()
 _SUFFIX = ("-dev-" + "_".join(DEV)) if DEV else ""
+if REPO != "/repo":      # mutation self-tests against a scratch worktree: private harness copy
+    _SUFFIX += "-alt" + hashlib.sha1(REPO.encode()).hexdigest()[:6]
 CARGO_TARGET = os.path.join(BUILD, "cargo" + _SUFFIX)
 OCAML_DIR = os.path.join(BUILD, "ocaml" + _SUFFIX)
 MODELRUN = os.path.join(OCAML_DIR, "modelrun")
@@ -184,6 +186,12 @@ def build_harness():
     """cargo build of the harness against /repo's CURRENT working tree, dev and release."""
     with Lock("cargo%s.lock" % _SUFFIX):
         h = os.path.join(VERIF, "harness")
+        if REPO != "/repo":
+            alt = os.path.join(BUILD, "harness" + _SUFFIX)
+            sh("rm -rf %s && mkdir -p %s && cp -r %s/src %s/Cargo.toml %s/Cargo.lock %s/.cargo %s/" % (alt, alt, h, h, h, h, alt), check=True)
+            ct = open(os.path.join(alt, "Cargo.toml")).read().replace('path = "/repo"', 'path = "%s"' % REPO)
+            open(os.path.join(alt, "Cargo.toml"), "w").write(ct)
+            h = alt
         res = {}
         for prof, flag in (("debug", ""), ("release", "--release")):
             t0 = time.time()
